@@ -137,16 +137,19 @@ class Speed(Job):
             dt = z3.ToReal(elapsed_whole_seconds(S.t[i - 1], S.t[i]))
             d = GEOD(S.lat[i - 1].v, S.lon[i - 1].v, S.lat[i].v, S.lon[i].v)
             over_f = d > S.ft.v * dt
-            if self.canary == "ge":
-                over_f = d >= S.ft.v * dt
-            exp = cases((over_f, FAIL), (d > S.st.v * dt, SUSPECT), default=GOOD)
+            if self.canary == "suspect_first":
+                # deliberately wrong: SUSPECT takes precedence over FAIL (equality with a threshold cannot be used as a canary
+                # here: the real geodesic never lands exactly on a grid threshold)
+                exp = cases((d > S.st.v * dt, SUSPECT), (over_f, FAIL), default=GOOD)
+            else:
+                exp = cases((over_f, FAIL), (d > S.st.v * dt, SUSPECT), default=GOOD)
             obl.append((f"flag[{i}] follows geodesic distance / elapsed seconds (both positions complete)",
                         mk_or(mk_not(mk_and(full[i], full[i - 1])), mk_eq(out.flags[i], exp))))
         return obl
 
 
 def jobs(tier):
-    N = 4 if tier == "quick" else 7
+    N = 5 if tier == "quick" else 14
     out = []
     for n in range(0, N + 1):
         out.append(RateOfChange(n))
@@ -157,13 +160,13 @@ def jobs(tier):
         out.append(RateOfChange(n, frac=True))
     out.append(RateOfChange(3, "epoch", frac=True))
     out.append(Speed(2, frac=True))
-    for n in range(0, (3 if tier == "quick" else 5) + 1):
+    for n in range(0, (3 if tier == "quick" else 6) + 1):
         out.append(Speed(n))
     out.append(Speed(2, "epoch"))
     for w in ("rate_of_change", "speed_time", "speed_lat"):
         out.append(RateMismatch(w))
     out.append(RateOfChange(2, canary="ge"))
-    out.append(Speed(2, canary="ge"))
+    out.append(Speed(2, canary="suspect_first"))
     return out
 
 
@@ -185,7 +188,7 @@ ASSUMPTIONS = ["numpy.ma / pandas.to_datetime environment model validated per pa
 
 
 def bounds(tier):
-    return {"series_length": "0..4" if tier == "quick" else "0..7", "speed_track_length": "0..3" if tier == "quick" else "0..5",
+    return {"series_length": "0..5" if tier == "quick" else "0..14", "speed_track_length": "0..3" if tier == "quick" else "0..6",
             "time_steps": "symbolic whole seconds 1..2^22, times within 2018-2024", "time_carriers": ["datetime64[ns]", "epoch seconds (int)"],
             "threshold": "symbolic >= 0"}
 
@@ -193,5 +196,5 @@ def bounds(tier):
 LEVEL_TEXT = ("bounded symbolic model checking of the real rate_of_change_test / speed_test source with symbolic values, "
               "irregular symbolic time steps and thresholds; the division by elapsed seconds is decided exactly (Lemma Q), the "
               "geodesic is uninterpreted")
-LEVEL_NOTE = "bounds: n<=4/6 (roc), n<=3/4 (speed); whole-second increasing times; grid G; environment model validated by witnesses"
+LEVEL_NOTE = "bounds: n<=5/14 (roc), n<=3/6 (speed); whole-second increasing times; grid G; environment model validated by witnesses"
 TECHNIQUE = "symbolic execution of the real Python source over a modelled numpy/pandas + z3 (SMT, QF_UFNRA-lite: products threshold*dt)"
